@@ -43,6 +43,15 @@ def contain(kind, lines):
         return [("- " if i == 0 else "  ") + l if l else "" for i, l in enumerate(lines)]
     if kind == "note":
         return ["````{note}"] + lines + ["````"]
+    # text that a directive parses itself (titles, captions): references there are as good as anywhere else
+    if kind == "admon-title" and len(lines) == 1:
+        return ["~~~~{admonition} " + lines[0], "body of the admonition", "~~~~"]
+    if kind == "topic-title" and len(lines) == 1:
+        return ["~~~~{topic} " + lines[0], "body of the topic", "~~~~"]
+    if kind == "table-caption" and len(lines) == 1:
+        return ["~~~~{table} " + lines[0], "| a |", "|---|", "~~~~"]
+    if kind == "figure-caption" and len(lines) == 1:
+        return ["~~~~{figure} i.png", "", lines[0], "~~~~"]
     return lines
 
 
@@ -308,7 +317,7 @@ def make_case(R):
         items.append(["def", lab, R.choice(["top", "top", "top", "quote", "list", "note"]), inner, R.random() < 0.2])
     for _ in range(R.randint(0, 5)):
         labs = [R.choice(pool + ["missing"] if R.random() < 0.15 else pool) for _ in range(R.randint(1, 3))]
-        items.insert(R.randint(0, len(items)), ["para", labs, R.choice(["top", "top", "quote", "list", "note"])])
+        items.insert(R.randint(0, len(items)), ["para", labs, R.choice(["top", "top", "quote", "list", "note", "admon-title", "topic-title", "table-caption", "figure-caption"])])
     for _ in range(R.choice([0, 0, 1])):
         items.insert(R.randint(0, len(items)), ["heading"])
     for _ in range(R.choice([0, 1])):
